@@ -79,3 +79,23 @@ func init() {
 	addMutant(Mutant{Name: "c24-key-parse-signed", Property: "C24", File: "protomap/proto.go",
 		Old: "v, err := strconv.ParseUint(val, 10, 64)", New: "x, err := strconv.ParseInt(val, 10, 64)\n\t\tv := uint64(x)", Expect: "list-key:protoreflect.Uint64Kind"})
 }
+
+func init() {
+	// C22
+	addMutant(Mutant{Name: "c22-unescaped-keys", Property: "C22", File: "gnmidiff/json.go",
+		Old: "\t\t\t\t\t\tlistelepath = strings.TrimPrefix(elemStr, \"/_\")\n", New: "\t\t\t\t\t\tlistelepath = \"\"\n\t\t\t\t\t\tfor k, v := range keyVals {\n\t\t\t\t\t\t\tlistelepath += fmt.Sprintf(\"[%s=%s]\", k, v)\n\t\t\t\t\t\t}\n\t\t\t\t\t\t_ = elemStr\n", Expect: "format#"})
+	addMutant(Mutant{Name: "c22-writeupdate-eq", Property: "C22", File: "gnmidiff/intent.go",
+		Old: "errorOnOverwrite && ok && !reflect.DeepEqual(val, prevVal)", New: "errorOnOverwrite && ok && val != prevVal", Expect: "writeUpdate"})
+	addMutant(Mutant{Name: "c22-mismatch-swapped", Property: "C22", File: "gnmidiff/setrequest.go",
+		Old: "MismatchedUpdate{A: vA, B: vB}", New: "MismatchedUpdate{A: vB, B: vA}", Expect: "mismatch-sides"})
+	addMutant(Mutant{Name: "c22-extra-from-a", Property: "C22", File: "gnmidiff/setrequest.go",
+		Old: "diff.ExtraUpdates = intentB.Updates", New: "diff.ExtraUpdates = intentA.Updates", Expect: "ExtraUpdates"})
+	addMutant(Mutant{Name: "c22-leaf-replace-kept", Property: "C22", File: "gnmidiff/intent.go",
+		Old: "\t\tdelete(intent.Deletes, path)\n\t\tif err := intent.writeUpdate(path, leafVal, errorOnOverwrite); err != nil {", New: "\t\tif err := intent.writeUpdate(path, leafVal, errorOnOverwrite); err != nil {", Expect: "populateUpdateNoSchema:leaf-replace"})
+	addMutant(Mutant{Name: "c22-update-no-prefix", Property: "C22", File: "gnmidiff/setrequest.go",
+		Old: "\tfor _, upd := range req.Update {\n\t\tpath, err := fullPathStr(prefix, upd.Path)", New: "\tfor _, upd := range req.Update {\n\t\tpath, err := fullPathStr(\"\", upd.Path)", Expect: "Update:path"})
+	addMutant(Mutant{Name: "c22-nil-leaflist", Property: "C22", File: "gnmidiff/intent.go",
+		Old: "\t\tss := make([]interface{}, len(elems))\n\t\tfor x, e := range elems {\n\t\t\tvar err error\n\t\t\tif ss[x], err = protoLeafToJSON(e); err != nil {\n\t\t\t\treturn nil, err\n\t\t\t}\n\t\t}", New: "\t\tvar ss []interface{}\n\t\tfor _, e := range elems {\n\t\t\ts, err := protoLeafToJSON(e)\n\t\t\tif err != nil {\n\t\t\t\treturn nil, err\n\t\t\t}\n\t\t\tss = append(ss, s)\n\t\t}", Expect: "TypedValue_LeaflistVal"})
+	addMutant(Mutant{Name: "c22-int-as-int64", Property: "C22", File: "gnmidiff/intent.go",
+		Old: "return float64(tv.GetIntVal()), nil", New: "return tv.GetIntVal(), nil", Expect: "TypedValue_IntVal"})
+}
